@@ -17,19 +17,22 @@ OWN = {
     "C06": None,   # fixed_session clauses are all C06's; the phonetic glue set is given explicitly in the module
     "C07": {"autocorrect_entry_is_first", "ranked_best_first", "dictionary_candidates_carry_their_distance",
             # distances are "from the plain transliteration" of THIS word: the memo entry a word's candidates come from is its own
-            "memo_entry_is_keyed_by_the_word", "memo_entry_holds_direct_candidates_only", "english_candidate_only_when_enabled_and_not_ansi",
+            "memo_entry_is_keyed_by_the_word", "memo_entry_holds_direct_candidates_only",
+            # "user entry before bundled entry": the user's list in use is the file as it can be read now
+            "file_newer_than_the_last_successful_load_is_read", "english_candidate_only_when_enabled_and_not_ansi",
             "english_candidate_is_last_and_is_the_typed_text", "no_candidate_twice"},
-    "C08": {"suffix_forms_complete", "candidates_of_the_base_come_back_joined", "memo_entry_holds_direct_candidates_only", "memo_entry_is_keyed_by_the_word"},
+    "C08": {"suffix_forms_complete", "candidates_of_the_base_come_back_joined", "candidates_are_justified", "memo_entry_holds_direct_candidates_only", "memo_entry_is_keyed_by_the_word"},
     "C09": {"learned_choice_is_preselected_next_time", "committing_the_preselected_candidate_changes_nothing", "other_learned_entries_survive_a_commit",
             "recorded_preselection_is_the_assemblys_answer", "commit_without_a_list_changes_nothing"},
     "C10": {"no_panic", "unreadable_store_is_treated_as_absent", "failed_save_loses_at_most_that_choice", "commit_ends_the_word",
-            "reload_keeps_the_word_in_progress", "save_replaces_the_whole_file", "nothing_owned_is_forgotten"},
+            "reload_keeps_the_word_in_progress", "save_replaces_the_whole_file", "nothing_owned_is_forgotten",
+            "file_newer_than_the_last_successful_load_is_read"},
     "C11": {"reloaded_context_equals_a_new_one", "reloaded_list_is_in_use", "configuration_is_replaced", "same_layout_keeps_the_method_and_its_word",
             "changed_layout_replaces_the_method", "later_events_see_the_new_configuration", "method_matches_the_configured_layout",
             "method_is_new_or_refreshed_by_the_update", "event_result_is_the_methods_result", "events_use_the_contexts_data", "current_method_is_last",
             "constructor_consults_the_user_files_whatever_the_options", "data_is_the_same_for_every_layout_and_option",
             "reconfigured_context_gives_the_list_of_a_new_one", "reconfigured_context_gives_the_preselection_of_a_new_one",
-            "key_obeys_the_options_in_force_now"},
+            "key_obeys_the_options_in_force_now", "key_emits_what_the_layout_now_loaded_assigns"},
     "C15": {"first_candidate_is_the_composed_text", "at_most_nine", "english_candidate_iff_enabled_and_not_ansi_and_different", "english_candidate_is_the_raw_keys",
             "non_emoji_candidates_by_distance", "no_candidate_twice", "dictionary_candidates_are_search_answers_wrapped", "pattern_is_anchored",
             "pattern_has_the_letter_class", "literal_part_has_no_regex_meta_character", "literal_part_is_the_word_without_punctuation", "wildcard_width_by_length",
